@@ -272,6 +272,7 @@ func suiteCrash(rn *runner, r *rng, tier string) {
 
 // C15: histories on one reused object; every call must behave like a call without reuse (the model has no reuse)
 func suiteReuse(rn *runner, r *rng, tier string) {
+	stragglerCases(rn, r, tier, "reuse")
 	{
 		nh := 150
 		if tier == "thorough" {
@@ -589,6 +590,7 @@ func streamOnce(text string) string {
 
 // C20: independent objects from concurrent goroutines; results must equal the sequential ones
 func suiteConc(rn *runner, r *rng, tier string) {
+	stragglerCases(rn, r, tier, "conc")
 	rounds, perG := 6, 40
 	if tier == "thorough" {
 		rounds, perG = 40, 150
